@@ -9,6 +9,7 @@ import RbV.Thm.GenSrcWavelet
 import RbV.Thm.GenSrcWaveletCompose
 import RbV.Thm.GenSrcSelect
 import RbV.Thm.GenSrcWaveletNew
+import RbV.Thm.GenSrcSbRankOrd
 /-!
 # C17 — rank/select and wavelet-matrix queries equal naive counting
 
@@ -416,6 +417,56 @@ example : Gen.SrcRankSelect.select0 (σ := SbRank) blockByte List.length (fun b 
     [SbRank.first 0, SbRank.first 32] 32 1 34 = Rs.Res.ok (some 34) := by decide
 
 end select_source
+
+/-! ## the order of `SuperblockRank`, translated from the source text (session 6, genleft; docs/notes/GEN.md, C17.md)
+
+`impl Deref / Ord / PartialOrd for SuperblockRank` are `RbV/Gen/SrcSbRankOrd.lean` (the enum is generated from its
+declaration).  `binary_search` sorts / searches by `Ord::cmp`; with the equality below the order in the assumed contract
+`BSearchOk` is the order of the *source text*, no longer the mirror `SbRank.lt`.  Proofs: `RbV/Thm/GenSrcSbRankOrd.lean`. -/
+section sbrank_order_source
+open RbV.Model.RankSelect RbV.Thm.GenSrcRankSelect RbV.Thm.GenSrcSelect RbV.Lemmas.RankSelectSorted
+open RbV.Thm.GenSrcSbRankOrd
+
+/-- **`impl Ord for SuperblockRank`, as written, is the mirror order**: `cmp` returns `Less` exactly when `SbRank.lt` holds,
+`Greater` exactly when it holds the other way round, `Equal` otherwise; `deref` is `SbRank.val`; `partial_cmp` is
+`Some(cmp)`.  `toSb` renames the constructors of the generated enum (`First`, `Some`) to those of the mirror. -/
+theorem superblock_rank_ord_source_eq_model (a b : Gen.SrcSbRankOrd.SuperblockRank) :
+    Gen.SrcSbRankOrd.deref a = (toSb a).val ∧
+    Gen.SrcSbRankOrd.cmp a b = (if (toSb a).lt (toSb b) then .lt else if (toSb b).lt (toSb a) then .gt else .eq) ∧
+    Gen.SrcSbRankOrd.partialCmp a b = some (Gen.SrcSbRankOrd.cmp a b) ∧
+    (Gen.SrcSbRankOrd.cmp a b).swap = Gen.SrcSbRankOrd.cmp b a :=
+  ⟨deref_eq_model a, cmp_eq_model a b, partialCmp_eq a b, cmp_swap a b⟩
+
+/-- **`select` exact, with the order read from the source**: as `select_source_exact`, but the assumed contract of
+`binary_search` is stated for the order `srcLt a b := (cmp a b == Less)` of the *translated* `Ord::cmp` — the mirror order
+no longer occurs among the assumptions. -/
+theorem select_source_exact_src_order (bl : List Bool → Nat) (cd8 : Nat → Nat) (bs : List SbRank → SbRank → Nat)
+    (bits : List Bool) (k : Nat) (hk : 1 ≤ k) (hks : k * 32 < 2 ^ 64) (hn : bits ≠ []) (hlen : bits.length < 2 ^ 60)
+    (hcd : CeilOk cd8 bits.length) (hbl : bl bits = (bits.length + 7) / 8)
+    (hbs : BSearchOk (fun a b => Gen.SrcSbRankOrd.cmp (ofSb a) (ofSb b) == Ordering.lt) bs) (j : Nat) :
+    ∃ n bits' sbs1 sbs0 s k',
+      Gen.SrcRankSelect.new (σ := SbRank) blockByte List.length bl cd8 SbRank.first SbRank.some SbRank.val bits k
+        = Rs.Res.ok (n, bits', sbs1, sbs0, s, k') ∧
+      Gen.SrcRankSelect.select1 (σ := SbRank) blockByte List.length bl cd8 SbRank.first SbRank.some SbRank.val bs
+        n bits' sbs1 sbs0 s k' j = Rs.Res.ok (selectRef true bits j) ∧
+      Gen.SrcRankSelect.select0 (σ := SbRank) blockByte List.length bl cd8 SbRank.first SbRank.some SbRank.val bs
+        n bits' sbs1 sbs0 s k' j = Rs.Res.ok (selectRef false bits j) := by
+  have hbs' : BSearchOk SbRank.lt bs := by
+    have h := srcLt_eq_model
+    unfold srcLt at h
+    rw [← h]; exact hbs
+  exact select_source_exact bl cd8 bs bits k hk hks hn hlen hcd hbl hbs' j
+
+-- non-vacuity: the translated `cmp` evaluated (equal ranks: `First < Some`), and the contract is satisfiable for the source order
+example : Gen.SrcSbRankOrd.cmp (.First 3) (.Some 3) = .lt ∧ Gen.SrcSbRankOrd.cmp (.Some 3) (.First 3) = .gt ∧
+    Gen.SrcSbRankOrd.cmp (.Some 3) (.Some 3) = .eq ∧ Gen.SrcSbRankOrd.cmp (.Some 2) (.First 3) = .lt ∧
+    Gen.SrcSbRankOrd.cmp (.First 4) (.First 3) = .gt := by decide
+example : BSearchOk (fun a b => Gen.SrcSbRankOrd.cmp (ofSb a) (ofSb b) == Ordering.lt) searchIdx := by
+  have h := srcLt_eq_model
+  unfold srcLt at h
+  rw [h]; exact searchIdx_ok
+
+end sbrank_order_source
 
 /-! ## wavelet matrix: function bodies translated from the source text, and the composition wavelet ∘ rank/select
 
